@@ -54,6 +54,8 @@ def expected_classes(sc):
 
 def component_of(field, m):
     """the component of Verifier.tla that a structured mutation of Wire.tla changes"""
+    if field == "commitments" and m.startswith("header:"):
+        return "ctx"
     if field == "commitments":
         return "remcommit" if m in ("flip-last-bit", "dup-last-chunk") else "troot"
     if field.startswith("tq"):
@@ -84,7 +86,11 @@ def run_mutations(pid, tier, seed, exe, wd):
     aux_plain = [s for s in stmts if s["t"]["auxd"] and s["t"]["lag"] == 0]
     # statements with trace metadata (shorter than / exactly / longer than one seed element)
     metas = [s for s in stmts if s["t"]["meta"] == 1][:1] + [s for s in stmts if s["t"]["meta"] == 7][:1] + [s for s in stmts if s["t"]["meta"] == 8][:1]
-    chosen = small[:1] + aux_lag[:1 if tier == "quick" else 4] + aux_plain[:1 if tier == "quick" else 4] + metas + chosen
+    # statements whose computation description can be instantiated for every trace length and blowup (one exemption, one assertion
+    # at step 0, degrees <= 2, no periodic columns): the header combinations of Wire.tla reach the parsing of the proof body
+    perm = [s for s in stmts if s["t"]["k"] == 1 and s["t"]["nasserts"] <= 1 and max(s["t"]["degs"]) <= 2 and not s["t"]["auxd"] and all(p == 0 for p in s["t"]["pcol"])]
+    perm = [s for s in perm if s["t"]["fold"] == 2][:1] + [s for s in perm if s["t"]["fold"] >= 4 and s["t"]["ln"] >= 5][:1] + [s for s in perm if s["t"]["width"] == 1][:1]
+    chosen = perm + small[:1] + aux_lag[:1 if tier == "quick" else 4] + aux_plain[:1 if tier == "quick" else 4] + metas + chosen
     scs = [starkgen.scenario(rec, i, seed) for i, rec in enumerate(chosen)]
     # every (field, hasher) combination on a small statement: what a hasher does with the integers it is handed (nonce, counters)
     # differs per hasher, so the structured mutations run once under each of them (fewer random edits, no truncations)
@@ -210,6 +216,36 @@ def run(tier, seed, pid="C03"):
             if pid == "C06" and out.startswith("panic@"):
                 v.violation("untrusted/%s" % out, "parsing/verifying a mutated proof (%s) panics: %s (%s)" % (mut, out, ctx),
                             {"scenario": sc, "mutation": mut})
+    over_n = 0
+    if pid == "C06":
+        # a proof that is honest up to the query phase but whose header asks for at least as many queries as the LDE domain has
+        # points (a prover written against the protocol, with a coin that still hands out positions)
+        base = [o_sc for o_sc, _ in obs if o_sc["shape"]["n"] <= 16 and not o_sc["shape"].get("aux_degs")][:3]
+        oscs = []
+        for k, b in enumerate(base):
+            for n, blowup, q in ((8, 2, 16), (8, 2, 17), (8, 2, 255), (8, 4, 32), (16, 2, 40), (8, 2, 15)):
+                sc = json.loads(json.dumps(b))
+                if sc["shape"]["n"] != n and any(a["first"] >= n or (a["kind"] != "single" and a["count"] * a["stride"] != n) for a in sc["shape"]["asserts"]):
+                    continue
+                if sc["shape"]["n"] != n:
+                    continue
+                sc["opts"].update(q=q, blowup=blowup, grind=0)
+                sc["id"] = len(oscs)
+                oscs.append(sc)
+        if oscs:
+            po = os.path.join(wd, "overquery.ndjson")
+            vlib.write_ndjson(po, oscs)
+            rc_, out_, err_ = vlib.run_harness(exe, ["stark", "overquery", "--scenarios", po], timeout=900)
+            if rc_ != 0:
+                raise vlib.ToolError("overquery harness rc=%s: %s" % (rc_, err_[-300:]))
+            for sc, o in zip(oscs, [json.loads(l) for l in out_.splitlines() if l.strip()]):
+                if o.get("prove") != "ok":
+                    continue      # the prover refuses: nothing to verify
+                over_n += 1
+                if o["outcome"].startswith("panic@"):
+                    v.violation("untrusted/%s" % o["outcome"], "verifying a proof that asks for %d queries over an LDE domain of %d points (honest up to the query phase) panics: %s" % (
+                        sc["opts"]["q"], sc["shape"]["n"] * sc["opts"]["blowup"], o["outcome"]), {"scenario": sc, "mutation": "overquery"})
+        log("[replay] %d proofs with at least as many queries as LDE points verified" % over_n)
     for d in sorted(drift)[:20]:
         log("SPEC-DRIFT (not a violation): " + d)
     tot, tally = summarize(obs)
